@@ -995,8 +995,14 @@ impl Repr {
             frame.set_sequence_number(sequence_number);
         }
 
-        if let Some(dst_pan_id) = self.dst_pan_id {
-            frame.set_dst_pan_id(dst_pan_id);
+        match (self.dst_pan_id, self.dst_addr) {
+            (Some(dst_pan_id), _) => frame.set_dst_pan_id(dst_pan_id),
+            // `buffer_len` reserves the destination PAN octets whenever there is a
+            // destination address: don't leave them as found in the buffer.
+            (None, Some(Address::Short(_) | Address::Extended(_))) => {
+                frame.set_dst_pan_id(Pan(0))
+            }
+            _ => (),
         }
         if let Some(dst_addr) = self.dst_addr {
             frame.set_dst_addr(dst_addr);
